@@ -82,6 +82,12 @@ func (p *c12Prim) prepare() {
 			p.endTol = append(p.endTol, 0)
 			continue
 		}
+		curved := false
+		for _, v := range pl.V {
+			if v.T > 1e-12 && v.T < 1-1e-12 {
+				curved = true
+			}
+		}
 		cum := make([]float64, len(pts))
 		for k := 1; k < len(pts); k++ {
 			cum[k] = cum[k-1] + pts[k-1].Dist(pts[k])
@@ -120,7 +126,11 @@ func (p *c12Prim) prepare() {
 				piece = append(piece, pb)
 				p.pieces = append(p.pieces, piece)
 				p.closed = append(p.closed, false)
-				p.endTol = append(p.endTol, 0.02*total)
+				if curved {
+					p.endTol = append(p.endTol, 0.02*total)
+				} else {
+					p.endTol = append(p.endTol, 1e-7*(1+total)) // dashes of polylines are placed exactly
+				}
 			}
 			pos += l
 			if i > 200000 {
@@ -202,13 +212,13 @@ func (p *c12Prim) cover(q Pt, mg float64) int {
 		}
 		// the library places dash ends within about two percent of the sub-path length (C05/C09): near the
 		// end of a dash nothing is decided
-		if p.endTol[k] > 0 && endDist < mg+p.endTol[k]+p.hw*reach {
+		if p.endTol[k] > 1e-3 && endDist < mg+p.endTol[k]+p.hw*reach {
 			res = covAmb
 			continue
 		}
 		// a join next to a segment of a hundredth of the half width (e.g. the 2 micrometre line a PostScript
 		// arc prepends when its computed start misses the current point) is not decided beyond the band
-		if d > p.hw-mg {
+		if d > p.hw-mg || (!p.closed[k] && endDist < 0.02*p.hw) {
 			near := false
 			for _, v := range p.shaky {
 				if q.Dist(v) < far {
@@ -1281,6 +1291,24 @@ func c12Check(ci any, o *core.Obs) {
 				}
 				samples = append(samples, p.Add(n.Mul(off)))
 			}
+			// just beyond the ends of dashes and open sub-paths, where the cap decides
+			if pr.line != nil && len(pr.pieces) > 0 {
+				for k := 0; k < 16; k++ {
+					pc := pr.pieces[r.Intn(len(pr.pieces))]
+					if len(pc) < 2 {
+						continue
+					}
+					e, b := pc[len(pc)-1], pc[len(pc)-2]
+					if r.Bool() {
+						e, b = pc[0], pc[1]
+					}
+					dir := e.Sub(b)
+					if l := dir.Len(); l > 0 {
+						side := Pt{X: -dir.Y / l, Y: dir.X / l}
+						samples = append(samples, e.Add(dir.Mul(pr.hw*r.Range(0.2, 0.95)/l)).Add(side.Mul(pr.hw*r.Range(-0.5, 0.5))))
+					}
+				}
+			}
 			// beyond sharp corners of stroked lines, where the join (mitre limit, bevel, round) decides
 			if pr.line != nil {
 				nv := 0
@@ -1554,7 +1582,7 @@ func init() {
 			{Name: "similar", Quick: 300, Thorough: 8000, Gen: genC12("similar")},
 			{Name: "dash", Quick: 300, Thorough: 8000, Gen: genC12("dash")},
 			{Name: "ps", Quick: 300, Thorough: 8000, Gen: genC12("ps")},
-			{Name: "state", Quick: 400, Thorough: 10000, Gen: genC12State},
+			{Name: "state", Quick: 800, Thorough: 10000, Gen: genC12State},
 			{Name: "selfx-stroke", Quick: 200, Thorough: 4000, Gen: genC12("selfx-stroke"), WitnessOnly: true, Note: "strokes of closed self-crossing or nested contours: Path.Stroke loses lobes (F-C04-closed-selfx), so the rasterizer and the outline fall-backs differ from native strokes"},
 		},
 		NewCase:  func() any { return &c12Case{} },
